@@ -10,7 +10,11 @@ Import ListNotations.
 From AnySync Require Export Model.TreeAuth.
 Open Scope N_scope.
 
-Inductive case := CScen (sc : scenario).
+(* CRoots: one ACL world shared by many ROOT deliveries -- whole trees (root alone, root + changes) handed to every
+   construction path (eager / deferred storage + BuildObjectTree, ValidateRawTreeDefault, ValidateFilterRawTree), the
+   root being honest or mutated; code 1 = live / heads / ids / stored differ from Model/TreeAuth.v model_rootdel,
+   code 2 = spec_roots false on what was observed (a root that is not authentic and authorised is in memory or on disk). *)
+Inductive case := CScen (sc : scenario) | CRoots (rw : rootworld).
 
 Definition hist_eqb (a b : list (rid * perm)) : bool :=
   list_eqb (fun x y => (fst x =? fst y) && (snd x =? snd y)) a b.
@@ -34,8 +38,31 @@ Definition del_eqb (m o : delivery) : bool :=
   sameset (d_iter m) (d_iter o) && sameset (d_stored m) (d_stored o) &&
   list_bool_eqb (d_has m) (d_has o).
 
+Definition rw_hists_ok (rw : rootworld) : bool :=
+  hists_ok (mkScen (rw_me rw) (rw_owner rw) (rw_aclroot rw) (rw_recs rw) (rw_hists rw)
+                   (mkRC 0 false false false false [] 0 false 0 0) false 1%nat false [] [] [] []).
+
+Definition rootdel_ok (me : acct) (ids : list rid) (sts : list state) (d : rootdel) : bool :=
+  match view_at ids sts (rd_acl_len d) with
+  | None => false
+  | Some a =>
+      match model_rootdel me a d with
+      | None => true                                  (* no prediction: only the specification is checked *)
+      | Some o =>
+          Bool.eqb (ro_live o) (rd_live d) && Bool.eqb (ro_live o) (rd_rebuilt d) &&
+          sameset (ro_heads o) (rd_lheads d) && sameset (ro_iter o) (rd_iter d) &&
+          sameset (ro_stored o) (rd_stored d) && sameset (ro_added o) (rd_added d)
+      end
+  end.
+
 Definition model_ok (c : case) : bool :=
   match c with
+  | CRoots rw =>
+      rw_hists_ok rw &&
+      match acl_states (rw_me rw) (rw_owner rw) (rw_aclroot rw) (rw_recs rw) with
+      | None => false
+      | Some sts => forallb (rootdel_ok (rw_me rw) (acl_ids (rw_aclroot rw) (rw_recs rw)) sts) (rw_dels rw)
+      end
   | CScen sc =>
       let m := model_scenario sc in
       hists_ok sc &&
@@ -45,7 +72,7 @@ Definition model_ok (c : case) : bool :=
       list_eqb del_eqb (sc_dels m) (sc_dels sc)
   end.
 
-Definition spec_ok (c : case) : bool := match c with CScen sc => spec_C02 sc end.
+Definition spec_ok (c : case) : bool := match c with CScen sc => spec_C02 sc | CRoots rw => spec_roots rw end.
 
 Fixpoint check_from (i : N) (l : list case) : list (N * N) :=
   match l with
